@@ -85,7 +85,11 @@ class TableFamily(Family):
         for i in range(n):
             rng = Rng(seed * 1000003 + i * 7 + vlib.hash_tag(pid) % 1000)
             small = not (i % 10 == 9)
-            yield ("table:%d:%d" % (seed, i), F.gen_table_case(rng, stats, mode=self.MODES.get(pid, "mixed"), small=small))
+            # every fifth table is written through a thread pool (0 = a pool object without threads, 1, 2, 4)
+            pool = [0, 1, 2, 4][(i // 5) % 4] if i % 5 == 4 else None
+            if pool is not None:
+                stats.bump("writer_pool_%d" % pool)
+            yield ("table:%d:%d" % (seed, i), F.gen_table_case(rng, stats, mode=self.MODES.get(pid, "mixed"), small=small, pool=pool))
     def oracle(self, res):
         return F.oracle_table(res)
     def keep_prefix(self, lines):
@@ -275,6 +279,10 @@ class CrcFamily(Family):
                 for impl in (["slicing", "sse42"] if tier == "thorough" else [impls[1 + (v & 1)]]):
                     lines.append("crc %s %d %s" % (impl, 0, hx(bytes(buf))))
         yield ("crc:bytevals", lines)
+        # buffers of 4 GiB and more (size_t arithmetic of the loops): thorough tier, and whenever the case budget is enlarged
+        # because a proof obligation or the tie broke
+        if tier == "thorough" or mult > 1.5:
+            yield ("crc:big", ["crc.big %d %d" % (n, al) for n, al in [((1 << 32) - 1, 0), (1 << 32, 0), ((1 << 32) + 11, 5), ((1 << 32) + 4096 + 7, 3)]])
         # random buffers
         lines = []
         for i in range(budget(tier, 60, 2000, mult)):
@@ -290,6 +298,12 @@ class CrcFamily(Family):
         fails = []
         for i, r in enumerate(res):
             t = r["req"].split(" ")
+            if t[0] == "crc.big":
+                f = dict(x.split("=") for x in r["real"].split(" ")[1:] if "=" in x)
+                vals = set(v for v in f.values() if v != "unsupported")
+                if r["real"].startswith("big ") and len(vals) > 1:
+                    fails.append(("C17", "buffer of %s bytes at alignment %s: the implementations disagree: %s" % (t[1], t[2], r["real"]), i))
+                continue
             if t[0] != "crc":
                 continue
             if r["real"] == "unsupported":
@@ -309,7 +323,7 @@ class CrcFamily(Family):
 class OpenFamily(Family):
     name = "open"
     def cases(self, pid, seed, tier, mult, stats):
-        n = budget(tier, 12, 200, mult)
+        n = budget(tier, 30, 300, mult)
         for i in range(n):
             rng = Rng(seed * 15485863 + i)
             # stage 1: a small valid table (v2, compression none) built by the real writer
@@ -357,8 +371,20 @@ def mutate_file(rng, good, n):
     io = int.from_bytes(good[L - 512:L - 504], "little")
     for _ in range(n):
         b = bytearray(good)
-        r = rng.below(12)
-        if r == 0:      # index offset field
+        r = rng.below(14)
+        if r >= 12:     # two fields together: the index offset moved close to the trailer AND a length prefix of every width there
+            g = rng.pick([13, 13, 13, 12, 14, 8, 9, 16, 17, 22, 4, 5])
+            io2 = L - 512 - g
+            if io2 >= 0:
+                v = rng.pick([0, 1, 8, 9, 127, 128, 1 << 14, 1 << 21, 1 << 28, 1 << 35, 1 << 42, 1 << 49, 1 << 56, (1 << 63) - 1, 1 << 63, (1 << 64) - 1, L, g - 5, g - 14])
+                pre = F_leb(max(0, v) % (1 << 64))
+                if rng.chance(1, 3):      # over-long (zero-padded) encoding of a small value, 2..10 bytes
+                    k = rng.pick([2, 5, 9, 10])
+                    pre = bytes([0x80 | (max(0, v) & 0x7f)]) + b"\x80" * (k - 2) + b"\x00"
+                b[L - 512:L - 504] = io2.to_bytes(8, "little")
+                b[io2:io2 + len(pre)] = pre[:max(0, L - 512 - io2)] if rng.chance(1, 8) else pre
+                b = b[:L] if len(b) >= L else b
+        elif r == 0:      # index offset field
             v = rng.pick(BOUNDARY + [io + d for d in (-2, -1, 1, 2, 13)] + [L - 512 - d for d in range(0, 20)])
             b[L - 512:L - 504] = (v % (1 << 64)).to_bytes(8, "little")
         elif r == 1:    # index length prefix (varint)
@@ -826,6 +852,9 @@ class CorruptFamily(Family):
             before = sum(counts[:tgt]) if tgt < len(frames) else 0
             if tgt < len(frames) and counts[tgt] > 0 and before < len(keys):
                 script.append("rv.read %d verify=1 get=%s" % (bid, hx(keys[before])))
+                if tgt + 1 < len(frames):
+                    # the same lookup after the reader has already served a key from a LATER block
+                    script.append("rv.read %d verify=1 first=%s get=%s" % (bid, hx(keys[-1]), hx(keys[before])))
             self.meta["muts"].append({"bid": str(bid), "target": "index" if tgt == len(frames) else tgt, "before": before, "kind": kind})
             bid += 1
         return self.canon(vlib.run_script(exe, script))
@@ -1139,7 +1168,7 @@ class MtFamily(Family):
         rng = Rng(seed * 32452843 + 9)
         for i in range(budget(tier, 10, 150, mult)):
             callers = rng.pick([1, 2, 3, 4]); pool = rng.pick([1, 2, 3, 4, 8, 16]); readers = rng.pick([0, 2, 4, 8])
-            sorters = rng.below(2); entries = rng.pick([50, 200, 600, 1500])
+            sorters = rng.pick([0, 1, 1, 2]); entries = rng.pick([50, 200, 600, 1500]) + rng.below(40)
             rounds = rng.pick([1, 2, 4]) if tier == "quick" else rng.pick([2, 5, 10])
             stats.bump("mt_callers_%d" % callers); stats.bump("mt_pool_%d" % pool); stats.bump("mt_readers_%d" % readers); stats.bump("mt_sorters_%d" % sorters)
             yield ("mt:%d:%d" % (seed, i), ["mt.run callers=%d pool=%d readers=%d entries=%d seed=%d sorters=%d rounds=%d" % (callers, pool, readers, entries, seed * 100 + i, sorters, rounds)])
@@ -1208,6 +1237,23 @@ class ResGen:
         self.emit("res.setfile 0 %s" % ",".join(str(t) for t in range(nt) if rng.chance(2, 3)) or "-")
         if self.lines[-1].endswith(" "):
             self.lines[-1] += "-"
+        if rng.chance(1, 4):
+            # setfile generations on one shared fileset: each generation really loaded, tables staying for several generations and leaving
+            self.stats.bump("res_generation_chain")
+            f0 = self.new_id(); self.emit("res.fileset %d 0" % f0); self.objs[f0] = {"k": "fileset", "set": f0}; self.deps[f0] = []
+            f1 = None
+            member = set(t for t in self.tables if rng.chance(1, 2))
+            for g in range(rng.pick([3, 4, 6])):
+                for t in self.tables:
+                    if rng.chance(1, 3):
+                        member ^= {t}
+                self.emit("res.setfile 0 %s" % (",".join(str(t) for t in sorted(member)) or "-"))
+                self.emit("res.fsreload %d" % f0)
+                it = self.new_id(); self.emit("res.iter %d %d iter" % (it, rng.pick([f0] + ([f1] if f1 is not None else []))))
+                self.emit("res.next %d 100" % it); self.emit("res.destroy %d" % it); self.next_id  # iterator closed before the next generation
+                self.emit("res.count")
+                if f1 is None and rng.chance(1, 2):
+                    f1 = self.new_id(); self.emit("res.fsdup %d %d" % (f1, f0)); self.objs[f1] = {"k": "fileset", "set": f0}; self.deps[f1] = []
         for _ in range(nops):
             self.op()
             if rng.chance(1, 4) and not any(o["k"] == "sorter" and o.get("pooled") and o.get("unsynced") for o in self.objs.values()):
